@@ -127,7 +127,7 @@ def run(model, res, tier):
     _r4(model, res, c)
     _r5(model, res, c)
     _r6(model, res, c)
-    keys = [(um.name, 'serialize_date'), (um.name, 'parse_date')]
+    keys = [(um.name, um.functions.key_of('serialize_date')), (um.name, um.functions.key_of('parse_date'))]
     region = c.cg.reachable(keys)
     purity.check_region(res, c, 'R3', None, region, 'a date converter')
     purity.check_memo(res, c, 'R3', region, 'a date converter')
@@ -138,7 +138,7 @@ CONVERSION_CALLS = ('timedelta', 'total_seconds', 'toordinal', 'timestamp', 'fro
 
 def _r1(model, res, c, um):
     cg = c.cg
-    allowed = cg.reachable([(um.name, 'serialize_date'), (um.name, 'parse_date')])
+    allowed = cg.reachable([(um.name, um.functions.key_of('serialize_date')), (um.name, um.functions.key_of('parse_date'))])
     n = 0
     for key, (m, f) in sorted(cg.funcs.items()):
         if key not in c.reach and key not in allowed:
@@ -165,7 +165,7 @@ def _r1(model, res, c, um):
                 res.violation('R1', '%s:%s:own-date-arithmetic' % key, m.where(node),
                               '%s converts between date-times and numbers on its own (%s) instead of going through the two converters: '
                               'its serials can disagree with the ones the operators and DATEVALUE see' % (key[1], hit), func=key[1])
-    res.floor('date<->number arithmetic sites', n, 2)
+    res.soft_floor('date<->number arithmetic sites', n, 2)
     # the exposing functions reach the converters
     users = []
     for name in ('DATEVALUE', 'N', 'DAYS', 'DATEDIF', 'TIMEVALUE'):
@@ -180,7 +180,7 @@ def _r1(model, res, c, um):
                     users.append((cname, (init[0].name, init[0].qualname_of(init[2]))))
     for name, key in users:
         reach = cg.reachable([key])
-        ok = (um.name, 'serialize_date') in reach
+        ok = (um.name, um.functions.key_of('serialize_date')) in reach
         res.ob('R1', name, 'obtains serials from the date->serial converter', ok)
         if not ok:
             m, f = cg.funcs[key]
@@ -393,7 +393,7 @@ def _r4(model, res, c):
         res.ob('R4', o['site'], o['case'], o['verdict'] == 'discharged', o.get('detail'))
     for f in tmp.findings:
         res.violation('R4', f.construct, f.where, f.why, case=f.case, func=f.func)
-    res.floor('comparison runs with a date operand', n, 30)
+    res.soft_floor('comparison runs with a date operand', n, 30)
 
 
 def _r5(model, res, c):
